@@ -434,6 +434,7 @@ func checkDerivedSite(p *packages.Package, fd *ast.FuncDecl, call *ast.CallExpr)
 // ---------------------------------------------------------------------------------------------------------------
 
 func checkMirrorRetry(c *Ctx, r *Report) {
+	defer checkMirrorWhole(c, r)
 	r.Rule("M-MIRROR", "qrcode/decoder.Decoder.Decode: the first success is returned unflagged; the retry re-masks the matrix, switches the parser to mirrored reading (which forgets the parsed version/format), re-reads version and format, transposes the matrix and decodes again - in that order, each step under `no error so far` - and its success is returned only after SetOther(NewQRCodeDecoderMetaData(true)); copyBit reads (j,i) when mirrored; Mirror swaps (x,y) with (y,x) over the upper triangle; both QR readers apply the mirrored correction to the points", 8)
 	fd, p := c.funcDeclOf("qrcode/decoder", "Decoder.Decode")
 	key := "qrcode/decoder.Decoder.Decode"
@@ -743,6 +744,7 @@ func isOrientationKey(p *packages.Package, e ast.Expr) bool {
 }
 
 func checkOrientation(c *Ctx, r *Report) {
+	defer checkOrientWhole(c, r)
 	r.Rule("M-ORIENT", "oned.OneDReader.doDecode: the row is reversed exactly on the second attempt, and a success of that attempt - and only that - is marked ORIENTATION 180 with both end points mirrored to width-1-x before it is returned; OneDReader.Decode retries on the counter-clockwise rotated image only after NotFound, under TRY_HARDER and rotation support, decodes the rotated image, marks ORIENTATION (270 + previous) mod 360 and maps each point (x, y) to (height-1-y, x) of the rotated image", 6)
 	fd, p := c.funcDeclOf("oned", "OneDReader.doDecode")
 	key := "oned.OneDReader.doDecode"
@@ -1236,4 +1238,645 @@ func checkMirroredCorrection(c *Ctx, r *Report) {
 		}
 	}
 	reportFold(r, c, "M-MIRRORPTS", key, fd.Pos(), bad)
+}
+
+// S-MIRRORW: the QR decoder's two attempts folded whole with the parser and the inner decode scripted.
+func checkMirrorWhole(c *Ctx, r *Report) {
+	if _, done := r.rules["S-MIRRORW"]; done {
+		return
+	}
+	r.Rule("S-MIRRORW", "qrcode/decoder.Decoder.Decode folded whole with the parser's methods as recorders and the inner decode, ReadVersion and ReadFormatInformation scripted: a first success is returned as it is and nothing else is called; after a first failure the calls are Remask and SetMirror(true) (both before the version is read), ReadVersion, ReadFormatInformation, Mirror (after both, before the second decode), decode, and a second success is flagged with NewQRCodeDecoderMetaData(true) and returned; when the mirrored version or format cannot be read, or the second decode fails with a format or checksum error, no result is returned and the error is the first attempt's; another error of the second decode is returned itself", 6)
+	fd, p := c.funcDeclOf("qrcode/decoder", "Decoder.Decode")
+	if fd == nil {
+		r.AnchorLost("S-MIRRORW", "qrcode/decoder.Decoder.Decode", "method not found")
+		return
+	}
+	type script struct {
+		name           string
+		d1, rv, rf, d2 string // "" = success
+		wantCalls      string
+		wantResult     string // "", "result1", "result2"
+		wantErr        string
+		flagged        bool
+	}
+	full := "decode Remask SetMirror(true) ReadVersion ReadFormatInformation Mirror decode"
+	for _, sc := range []script{
+		{"the first reading succeeds", "", "", "", "", "decode", "result1", "", false},
+		{"the first reading fails (format), the mirrored one succeeds", "error:Format#1", "", "", "", full, "result2", "", true},
+		{"the first reading fails (checksum), the mirrored one succeeds", "error:Checksum#1", "", "", "", full, "result2", "", true},
+		{"the mirrored version cannot be read", "error:Checksum#1", "error:Format#2", "", "", "decode Remask SetMirror(true) ReadVersion", "", "error:Checksum#1", false},
+		{"the mirrored format information cannot be read", "error:Format#1", "", "error:Format#3", "", "decode Remask SetMirror(true) ReadVersion ReadFormatInformation", "", "error:Format#1", false},
+		{"both readings fail with checksum errors", "error:Checksum#1", "", "", "error:Checksum#4", full, "", "error:Checksum#1", false},
+		{"the mirrored reading fails with another error", "error:Format#1", "", "", "error:Other#4", full, "", "error:Other#4", false},
+	} {
+		key := "qrcode/decoder.Decoder.Decode/" + sc.name
+		r.Analysed(key)
+		var calls []string
+		decodes := 0
+		flaggedOn := ""
+		h := &rpf{unroll: 16}
+		h.callHook = func(rr *rpf, call *ast.CallExpr, callee types.Object) (*Val, bool) {
+			fnc, ok := callee.(*types.Func)
+			if !ok {
+				return nil, false
+			}
+			recv := ""
+			if sig, ok := fnc.Type().(*types.Signature); ok && sig.Recv() != nil {
+				recv = namedOf(sig.Recv().Type())
+			}
+			switch {
+			case recv == "BitMatrixParser" && (fnc.Name() == "Remask" || fnc.Name() == "Mirror"):
+				calls = append(calls, fnc.Name())
+				return &Val{K: VNil}, true
+			case recv == "BitMatrixParser" && fnc.Name() == "SetMirror":
+				a := rr.expr(call.Args[0])
+				calls = append(calls, fmt.Sprintf("SetMirror(%v)", a.K == VBool && a.B))
+				return &Val{K: VNil}, true
+			case recv == "DecoderResult" && fnc.Name() == "SetOther":
+				if sel, ok := call.Fun.(*ast.SelectorExpr); ok {
+					on := rr.expr(sel.X)
+					a := rr.expr(call.Args[0])
+					if on.K == VStruct && on.Fields["\x00id"] != nil && a.K == VStruct && a.Fields["\x00mirrored"] != nil && a.Fields["\x00mirrored"].B {
+						flaggedOn = on.Fields["\x00id"].S
+					}
+				}
+				return &Val{K: VNil}, true
+			case fnc.Name() == "NewQRCodeDecoderMetaData":
+				a := rr.expr(call.Args[0])
+				return &Val{K: VStruct, Ptr: true, Fields: map[string]*Val{"\x00mirrored": vbool(a.K == VBool && a.B)}}, true
+			case fnc.Pkg() != nil && strings.HasSuffix(fnc.Pkg().Path(), "gozxing") && strings.HasPrefix(fnc.Name(), "Wrap") && len(call.Args) == 1:
+				return rr.expr(call.Args[0]), true // a wrapped error keeps its kind here
+			}
+			return errCtorHook(rr, call, callee)
+		}
+		h.multiHook = func(call *ast.CallExpr, callee types.Object) ([]*Val, bool) {
+			fnc, ok := callee.(*types.Func)
+			if !ok {
+				return nil, false
+			}
+			switch fnc.Name() {
+			case "NewBitMatrixParser":
+				return []*Val{{K: VStruct, Ptr: true, Fields: map[string]*Val{}}, {K: VNil}}, true
+			case "decode":
+				decodes++
+				calls = append(calls, "decode")
+				e := sc.d1
+				if decodes > 1 {
+					e = sc.d2
+				}
+				if e != "" {
+					return []*Val{{K: VNil}, vstr(e)}, true
+				}
+				return []*Val{{K: VStruct, Ptr: true, Fields: map[string]*Val{"\x00id": vstr(fmt.Sprintf("result%d", decodes))}}, {K: VNil}}, true
+			case "ReadVersion":
+				calls = append(calls, "ReadVersion")
+				if sc.rv != "" {
+					return []*Val{{K: VNil}, vstr(sc.rv)}, true
+				}
+				return []*Val{{K: VStruct, Ptr: true, Fields: map[string]*Val{}}, {K: VNil}}, true
+			case "ReadFormatInformation":
+				calls = append(calls, "ReadFormatInformation")
+				if sc.rf != "" {
+					return []*Val{{K: VNil}, vstr(sc.rf)}, true
+				}
+				return []*Val{{K: VStruct, Ptr: true, Fields: map[string]*Val{}}, {K: VNil}}, true
+			}
+			return nil, false
+		}
+		h.assertHook = func(rr *rpf, ta *ast.TypeAssertExpr, v *Val) (bool, bool) {
+			if v.K == VNil {
+				return false, true
+			}
+			if v.K != VStr || !strings.HasPrefix(v.S, "error:") {
+				return false, false
+			}
+			t := rr.p.TypesInfo.TypeOf(ta.Type)
+			switch namedOf(t) {
+			case "FormatException":
+				return strings.HasPrefix(v.S, "error:Format"), true
+			case "ChecksumException":
+				return strings.HasPrefix(v.S, "error:Checksum"), true
+			case "NotFoundException":
+				return strings.HasPrefix(v.S, "error:NotFound"), true
+			case "ReaderException":
+				return !strings.HasPrefix(v.S, "error:Other"), true
+			}
+			return false, false
+		}
+		h.env = map[types.Object]*Val{}
+		if ro := recvObj(p, fd); ro != nil {
+			h.env[ro] = &Val{K: VStruct, Ptr: true, Fields: map[string]*Val{}}
+		}
+		res, err := c.rpfCall(fd, p, []*Val{{K: VStruct, Ptr: true, Fields: map[string]*Val{}}, {K: VNil}}, h)
+		got := strings.Join(calls, " ")
+		bad := ""
+		switch {
+		case err != nil:
+			bad = "?" + err.Error()
+		case len(res) != 2:
+			bad = "Decode does not return (result, error)"
+		case got != sc.wantCalls:
+			bad = fmt.Sprintf("the calls are [%s], expected [%s]", got, sc.wantCalls)
+		case sc.wantResult == "" && res[0].K != VNil:
+			bad = "a result is returned although the reading failed"
+		case sc.wantResult != "" && (res[0].K != VStruct || res[0].Fields["\x00id"] == nil || res[0].Fields["\x00id"].S != sc.wantResult || res[1].K != VNil):
+			bad = fmt.Sprintf("expected (%s, nil), got (%s, %s)", sc.wantResult, res[0], res[1])
+		case sc.wantErr != "" && (res[1].K != VStr || res[1].S != sc.wantErr):
+			bad = fmt.Sprintf("the error returned is %s, expected %s (the first attempt's, unless the second fails otherwise)", res[1], sc.wantErr)
+		case sc.flagged && flaggedOn != sc.wantResult:
+			bad = "the mirrored success is not flagged with NewQRCodeDecoderMetaData(true) on the result that is returned"
+		case !sc.flagged && flaggedOn != "":
+			bad = "a result is flagged as mirrored although it was not read mirrored"
+		}
+		reportFold(r, c, "S-MIRRORW", key, fd.Pos(), bad)
+	}
+	r.RelaxCountWhen("M-MIRROR", "S-MIRRORW") // (the parser's and the meta data's obligations report a lost anchor themselves)
+	r.DecidedByKeys("M-MIRROR", "S-MIRRORW", "Decode folded whole over seven scripts of successes and failures: calls, their order, the flag and the error returned", "Decoder.Decode/protocol", "Decoder.Decode/conditional", "Decoder.Decode/flag", "Decoder.Decode/unmirrored")
+}
+
+// S-ORIENTW: the 1-D reader's row scan and its rotated retry folded whole, with the image, the row decoder and the
+// result as recorders.
+func checkOrientWhole(c *Ctx, r *Report) {
+	if _, done := r.rules["S-ORIENTW"]; done {
+		return
+	}
+	r.Rule("S-ORIENTW", "oned.OneDReader.doDecode and Decode folded whole with the image, the row decoder and the result scripted. doDecode: the rows asked for are the middle one and then alternately rowStep below and above it (height>>5, or height>>8 with TRY_HARDER, at least 1; 15 rows, or all with TRY_HARDER), a row the binarizer cannot give is skipped, each row is tried forward and then once reversed; a forward success is returned untouched, a reversed one carries ORIENTATION 180 and its two end points mirrored to width-1-x; every attempt is given the caller's hints except that no reversed attempt is given the result-point callback; a failure that is not a reader exception ends the scan at once and nothing decodable gives NotFound. Decode: a first success is returned; only after NotFound, with TRY_HARDER and a rotatable image, the counter-clockwise rotated image is scanned with the same hints, and its success carries ORIENTATION (270 + the scan's own) mod 360 and every point (x, y) mapped to (rotated height - 1 - y, x)", 14)
+	fdD, pD := c.funcDeclOf("oned", "OneDReader.doDecode")
+	fdE, pE := c.funcDeclOf("oned", "OneDReader.Decode")
+	if fdD == nil || fdE == nil {
+		r.AnchorLost("S-ORIENTW", "oned.OneDReader", "doDecode or Decode not found")
+		return
+	}
+	root := c.pkg("")
+	cint := func(name string) int64 {
+		if root != nil {
+			if cst, ok := root.Types.Scope().Lookup(name).(*types.Const); ok {
+				if v, ok := constInt64(cst); ok {
+					return v
+				}
+			}
+		}
+		return -1
+	}
+	TH, CB, PF, OR := cint("DecodeHintType_TRY_HARDER"), cint("DecodeHintType_NEED_RESULT_POINT_CALLBACK"), cint("DecodeHintType_POSSIBLE_FORMATS"), cint("ResultMetadataType_ORIENTATION")
+	if TH < 0 || CB < 0 || PF < 0 || OR < 0 {
+		r.AnchorLost("S-ORIENTW", "gozxing hint / metadata constants", "constant not found")
+		return
+	}
+	recvName := func(fnc *types.Func) string {
+		if sig, ok := fnc.Type().(*types.Signature); ok && sig.Recv() != nil {
+			return namedOf(sig.Recv().Type())
+		}
+		return ""
+	}
+	assertHook := func(rr *rpf, ta *ast.TypeAssertExpr, v *Val) (bool, bool) {
+		if v.K == VNil {
+			return false, true
+		}
+		t := rr.p.TypesInfo.TypeOf(ta.Type)
+		if b, ok := t.Underlying().(*types.Basic); ok && b.Info()&types.IsInteger != 0 {
+			return v.K == VInt, true
+		}
+		if v.K != VStr || !strings.HasPrefix(v.S, "error:") {
+			return false, false
+		}
+		switch namedOf(t) {
+		case "NotFoundException":
+			return strings.HasPrefix(v.S, "error:NotFound"), true
+		case "FormatException":
+			return strings.HasPrefix(v.S, "error:Format"), true
+		case "ChecksumException":
+			return strings.HasPrefix(v.S, "error:Checksum"), true
+		case "ReaderException":
+			return !strings.HasPrefix(v.S, "error:Other"), true
+		}
+		return false, false
+	}
+	hintsVal := func(keys ...int64) *Val {
+		if keys == nil {
+			return &Val{K: VNil}
+		}
+		m := &Val{K: VStruct, Fields: map[string]*Val{}}
+		for _, k := range keys {
+			m.Fields[fmt.Sprint(k)] = vbool(true)
+		}
+		return m
+	}
+	keysOf := func(v *Val) string {
+		if v == nil || v.K != VStruct {
+			return ""
+		}
+		var ks []string
+		for k := range v.Fields {
+			ks = append(ks, k)
+		}
+		sort.Strings(ks)
+		return strings.Join(ks, ",")
+	}
+	pt := func(x, y float64) *Val {
+		return &Val{K: VStruct, Ptr: true, Fields: map[string]*Val{"x": {K: VFloat, F: x}, "y": {K: VFloat, F: y}}}
+	}
+	ptStr := func(v *Val) string {
+		if v == nil || v.K != VStruct || v.Fields["x"] == nil || v.Fields["y"] == nil {
+			return "?"
+		}
+		f := func(a *Val) float64 {
+			if a.K == VInt {
+				return float64(a.I)
+			}
+			return a.F
+		}
+		return fmt.Sprintf("(%g, %g)", f(v.Fields["x"]), f(v.Fields["y"]))
+	}
+	// hooks shared by both folds: the result and its points
+	resultHooks := func(rr *rpf, call *ast.CallExpr, fnc *types.Func) (*Val, bool) {
+		switch {
+		case recvName(fnc) == "Result" && fnc.Name() == "PutMetadata":
+			if sel, ok := call.Fun.(*ast.SelectorExpr); ok {
+				if on := rr.expr(sel.X); on.K == VStruct && on.Fields["\x00meta"] != nil {
+					k, v := rr.expr(call.Args[0]), rr.expr(call.Args[1])
+					if !k.isInt() {
+						rpfFail("PutMetadata with a non-constant key")
+					}
+					on.Fields["\x00meta"].Fields[fmt.Sprint(k.I)] = v
+					return &Val{K: VNil}, true
+				}
+			}
+			rpfFail("PutMetadata on an unknown result")
+		case recvName(fnc) == "Result" && fnc.Name() == "GetResultMetadata":
+			if sel, ok := call.Fun.(*ast.SelectorExpr); ok {
+				if on := rr.expr(sel.X); on.K == VStruct && on.Fields["\x00meta"] != nil {
+					return on.Fields["\x00meta"], true
+				}
+			}
+			rpfFail("GetResultMetadata on an unknown result")
+		case recvName(fnc) == "Result" && fnc.Name() == "GetResultPoints":
+			if sel, ok := call.Fun.(*ast.SelectorExpr); ok {
+				if on := rr.expr(sel.X); on.K == VStruct && on.Fields["\x00points"] != nil {
+					return on.Fields["\x00points"], true
+				}
+			}
+			rpfFail("GetResultPoints on an unknown result")
+		case fnc.Name() == "NewResultPoint" && len(call.Args) == 2:
+			x, y := rr.expr(call.Args[0]), rr.expr(call.Args[1])
+			return &Val{K: VStruct, Ptr: true, Fields: map[string]*Val{"x": x, "y": y}}, true
+		case recvName(fnc) == "ResultPoint" && (fnc.Name() == "GetX" || fnc.Name() == "GetY"):
+			if sel, ok := call.Fun.(*ast.SelectorExpr); ok {
+				if on := rr.expr(sel.X); on.K == VStruct && on.Fields["x"] != nil {
+					if fnc.Name() == "GetX" {
+						return on.Fields["x"], true
+					}
+					return on.Fields["y"], true
+				}
+			}
+			rpfFail("GetX / GetY on an unknown point")
+		case fnc.Name() == "NewNotFoundException":
+			return vstr("error:NotFound#end"), true
+		case fnc.Pkg() != nil && strings.HasSuffix(fnc.Pkg().Path(), "gozxing") && strings.HasPrefix(fnc.Name(), "Wrap") && len(call.Args) == 1:
+			return rr.expr(call.Args[0]), true
+		}
+		return nil, false
+	}
+	newResult := func(id string, meta map[string]*Val, pts ...*Val) *Val {
+		if meta == nil {
+			meta = map[string]*Val{}
+		}
+		return &Val{K: VStruct, Ptr: true, Fields: map[string]*Val{"\x00id": vstr(id), "\x00meta": {K: VStruct, Local: true, Fields: meta}, "\x00points": {K: VList, Local: true, L: pts}}}
+	}
+
+	// ---- doDecode
+	type attempt struct {
+		row   int64
+		rev   bool
+		hints string
+	}
+	type dscript struct {
+		name       string
+		W, H       int64
+		hints      []int64
+		noRow      map[int64]string // rows for which GetBlackRow fails, with the error
+		okRow      int64            // the row that decodes (-1: none)
+		okRev      bool
+		rowErr     map[int64]string // DecodeRow errors other than NotFound, by row (forward attempt)
+		wantRows   []int64
+		wantErr    string
+		wantResult bool
+	}
+	seq := func(middle, step, n, h int64) []int64 {
+		var out []int64
+		for x := int64(0); x < n; x++ {
+			k := step * ((x + 1) / 2)
+			row := middle + k
+			if x%2 == 1 {
+				row = middle - k
+			}
+			if row < 0 || row >= h {
+				break
+			}
+			out = append(out, row)
+		}
+		return out
+	}
+	scripts := []dscript{
+		{name: "no hints, nothing decodes", W: 30, H: 64, okRow: -1, wantRows: seq(32, 2, 15, 64), wantErr: "error:NotFound#end"},
+		{name: "TRY_HARDER, nothing decodes", W: 30, H: 20, hints: []int64{TH}, okRow: -1, wantRows: seq(10, 1, 20, 20), wantErr: "error:NotFound#end"},
+		{name: "TRY_HARDER on a tall image", W: 30, H: 600, hints: []int64{TH, PF}, okRow: 296, okRev: false, wantRows: seq(300, 2, 600, 600)[:4], wantResult: true},
+		{name: "a row decodes forward", W: 30, H: 64, hints: []int64{PF}, okRow: 30, okRev: false, wantRows: []int64{32, 30}, wantResult: true},
+		{name: "a row decodes reversed", W: 30, H: 64, hints: []int64{PF}, okRow: 30, okRev: true, wantRows: []int64{32, 30}, wantResult: true},
+		{name: "the callback hint", W: 30, H: 64, hints: []int64{CB, PF}, okRow: 34, okRev: true, wantRows: []int64{32, 30, 34}, wantResult: true},
+		{name: "a row the binarizer cannot give", W: 30, H: 64, noRow: map[int64]string{32: "error:NotFound#row"}, okRow: 30, okRev: false, wantRows: []int64{32, 30}, wantResult: true},
+		{name: "the binarizer fails otherwise", W: 30, H: 64, noRow: map[int64]string{30: "error:Other#row"}, okRow: -1, wantRows: []int64{32, 30}, wantErr: "error:Other#row"},
+		{name: "the row decoder fails with an error that is no reader exception", W: 30, H: 64, rowErr: map[int64]string{30: "error:Other#dec"}, okRow: -1, wantRows: []int64{32, 30}, wantErr: "error:Other#dec"},
+	}
+	for _, sc := range scripts {
+		key := "oned.OneDReader.doDecode/" + sc.name
+		r.Analysed(key)
+		var rows []int64
+		var attempts []attempt
+		var returned *Val
+		callerHints := hintsVal(sc.hints...)
+		h := &rpf{unroll: 4096, maxSteps: 2000000, assertHook: assertHook}
+		h.callHook = func(rr *rpf, call *ast.CallExpr, callee types.Object) (*Val, bool) {
+			fnc, ok := callee.(*types.Func)
+			if !ok {
+				return nil, false
+			}
+			switch {
+			case recvName(fnc) == "BinaryBitmap" && fnc.Name() == "GetWidth":
+				return vint(sc.W), true
+			case recvName(fnc) == "BinaryBitmap" && fnc.Name() == "GetHeight":
+				return vint(sc.H), true
+			case fnc.Name() == "NewBitArray" && recvName(fnc) == "":
+				return &Val{K: VStruct, Ptr: true, Fields: map[string]*Val{"\x00rev": vint(0), "\x00row": vint(-1)}}, true
+			case recvName(fnc) == "BitArray" && fnc.Name() == "Reverse":
+				if sel, ok := call.Fun.(*ast.SelectorExpr); ok {
+					if on := rr.expr(sel.X); on.K == VStruct && on.Fields["\x00rev"] != nil {
+						on.Fields["\x00rev"] = vint(on.Fields["\x00rev"].I + 1)
+						return &Val{K: VNil}, true
+					}
+				}
+				rpfFail("Reverse of an unknown row")
+			}
+			if v, ok := resultHooks(rr, call, fnc); ok {
+				return v, true
+			}
+			return errCtorHook(rr, call, callee)
+		}
+		h.multiHook = func(call *ast.CallExpr, callee types.Object) ([]*Val, bool) {
+			fnc, ok := callee.(*types.Func)
+			if !ok {
+				return nil, false
+			}
+			rr := rpfCurrent
+			switch {
+			case recvName(fnc) == "BinaryBitmap" && fnc.Name() == "GetBlackRow":
+				y := rr.expr(call.Args[0])
+				if !y.isInt() {
+					rpfFail("GetBlackRow of a non-constant row")
+				}
+				rows = append(rows, y.I)
+				if e, bad := sc.noRow[y.I]; bad {
+					return []*Val{{K: VNil}, vstr(e)}, true
+				}
+				return []*Val{{K: VStruct, Ptr: true, Fields: map[string]*Val{"\x00rev": vint(0), "\x00row": vint(y.I)}}, {K: VNil}}, true
+			case fnc.Name() == "DecodeRow" && len(call.Args) == 3:
+				y, row, hv := rr.expr(call.Args[0]), rr.expr(call.Args[1]), rr.expr(call.Args[2])
+				if !y.isInt() || row.K != VStruct || row.Fields["\x00rev"] == nil || row.Fields["\x00row"].I != y.I {
+					rpfFail("DecodeRow is not given the row it names")
+				}
+				rev := row.Fields["\x00rev"].I%2 == 1
+				attempts = append(attempts, attempt{y.I, rev, keysOf(hv)})
+				if e, bad := sc.rowErr[y.I]; bad && !rev {
+					return []*Val{{K: VNil}, vstr(e)}, true
+				}
+				if y.I == sc.okRow && rev == sc.okRev {
+					returned = newResult("result", nil, pt(3, float64(y.I)), pt(20, float64(y.I)), pt(7, 7))
+					return []*Val{returned, {K: VNil}}, true
+				}
+				return []*Val{{K: VNil}, vstr("error:NotFound#dec")}, true
+			}
+			return nil, false
+		}
+		h.env = map[types.Object]*Val{}
+		if ro := recvObj(pD, fdD); ro != nil {
+			h.env[ro] = &Val{K: VStruct, Ptr: true, Fields: map[string]*Val{"RowDecoder": {K: VStruct, Ptr: true, Fields: map[string]*Val{}}}}
+		}
+		res, err := c.rpfCall(fdD, pD, []*Val{{K: VStruct, Ptr: true, Fields: map[string]*Val{}}, callerHints}, h)
+		bad := ""
+		all := keysOf(callerHints)
+		noCB := keysOf(func() *Val {
+			var ks []int64
+			for _, k := range sc.hints {
+				if k != CB {
+					ks = append(ks, k)
+				}
+			}
+			if ks == nil && sc.hints != nil {
+				return &Val{K: VStruct, Fields: map[string]*Val{}}
+			}
+			return hintsVal(ks...)
+		}())
+		switch {
+		case err != nil:
+			bad = "?" + err.Error()
+		case len(res) != 2:
+			bad = "doDecode does not return (result, error)"
+		case fmt.Sprint(rows) != fmt.Sprint(sc.wantRows):
+			bad = fmt.Sprintf("the rows asked for are %v, expected %v", rows, sc.wantRows)
+		case sc.wantResult && (res[0] != returned || res[1].K != VNil):
+			bad = fmt.Sprintf("expected the row decoder's result and no error, got (%s, %s)", res[0], res[1])
+		case !sc.wantResult && (res[0].K != VNil || res[1].K != VStr || res[1].S != sc.wantErr):
+			bad = fmt.Sprintf("expected (nil, %s), got (%s, %s)", sc.wantErr, res[0], res[1])
+		}
+		if bad == "" {
+			// the attempts: per row that was delivered, forward then reversed, up to the success / the fatal error
+			var want []attempt
+			for _, y := range sc.wantRows {
+				if _, skip := sc.noRow[y]; skip {
+					continue
+				}
+				want = append(want, attempt{y, false, ""})
+				if _, fatal := sc.rowErr[y]; fatal {
+					break
+				}
+				if y == sc.okRow && !sc.okRev {
+					break
+				}
+				want = append(want, attempt{y, true, ""})
+			}
+			if len(attempts) != len(want) {
+				bad = fmt.Sprintf("%d attempts are made, expected %d (each row forward, then reversed once)", len(attempts), len(want))
+			}
+			for i := 0; i < len(attempts) && bad == ""; i++ {
+				a := attempts[i]
+				switch {
+				case a.row != want[i].row || a.rev != want[i].rev:
+					bad = fmt.Sprintf("attempt %d is row %d reversed=%v, expected row %d reversed=%v", i, a.row, a.rev, want[i].row, want[i].rev)
+				case i == 0 && a.hints != all:
+					bad = fmt.Sprintf("the first attempt is given the hints {%s}, the caller's are {%s}", a.hints, all)
+				case a.rev && a.hints != noCB:
+					bad = fmt.Sprintf("the reversed attempt on row %d is given the hints {%s}, expected the caller's without the result-point callback {%s}", a.row, a.hints, noCB)
+				case !a.rev && a.hints != all && a.hints != noCB:
+					bad = fmt.Sprintf("the attempt on row %d is given the hints {%s}, expected the caller's {%s}", a.row, a.hints, all)
+				}
+			}
+		}
+		if bad == "" && sc.wantResult {
+			meta := returned.Fields["\x00meta"].Fields
+			pts := returned.Fields["\x00points"].L
+			y := float64(sc.okRow)
+			if sc.okRev {
+				if o := meta[fmt.Sprint(OR)]; o == nil || !o.isInt() || o.I != 180 || len(meta) != 1 {
+					bad = "a row read reversed must carry ORIENTATION 180 (and no other metadata is the scan's to add)"
+				} else if len(pts) != 3 || ptStr(pts[0]) != ptStr(pt(float64(sc.W)-1-3, y)) || ptStr(pts[1]) != ptStr(pt(float64(sc.W)-1-20, y)) || ptStr(pts[2]) != ptStr(pt(7, 7)) {
+					bad = fmt.Sprintf("the end points of a row read reversed must be mirrored to width-1-x: got %s, %s from (3, %g), (20, %g) in a row of %d", ptStr(pts[0]), ptStr(pts[1]), y, y, sc.W)
+				}
+			} else if len(meta) != 0 || len(pts) != 3 || ptStr(pts[0]) != ptStr(pt(3, y)) || ptStr(pts[1]) != ptStr(pt(20, y)) {
+				bad = "a row read forward must be returned as the row decoder gave it (no ORIENTATION, points untouched)"
+			}
+		}
+		reportFold(r, c, "S-ORIENTW", key, fdD.Pos(), bad)
+	}
+
+	// ---- Decode
+	type escript struct {
+		name        string
+		hints       []int64
+		first       string // error of the first scan ("" = success)
+		rotatable   bool
+		rotateErr   string
+		second      string
+		secondMeta  int64 // ORIENTATION the second scan put (0: none)
+		wantScans   int
+		wantRotates int
+		wantErr     string
+		wantOrient  int64 // 0: none
+		wantPoints  []string
+	}
+	const RH = 50 // height of the rotated image
+	for _, sc := range []escript{
+		{name: "the first scan succeeds", hints: []int64{TH}, rotatable: true, wantScans: 1},
+		{name: "not found, no TRY_HARDER", hints: []int64{PF}, first: "error:NotFound#1", rotatable: true, wantScans: 1, wantErr: "error:NotFound#1"},
+		{name: "not found, no hints", first: "error:NotFound#1", rotatable: true, wantScans: 1, wantErr: "error:NotFound#1"},
+		{name: "not found, TRY_HARDER, image cannot be rotated", hints: []int64{TH}, first: "error:NotFound#1", wantScans: 1, wantErr: "error:NotFound#1"},
+		{name: "a checksum error is final", hints: []int64{TH}, first: "error:Checksum#1", rotatable: true, wantScans: 1, wantErr: "error:Checksum#1"},
+		{name: "rotated scan succeeds", hints: []int64{TH, PF}, first: "error:NotFound#1", rotatable: true, wantScans: 2, wantRotates: 1, wantOrient: 270, wantPoints: []string{ptStr(pt(RH-1-9, 4)), ptStr(pt(RH-1-9, 30))}},
+		{name: "rotated scan succeeds reversed", hints: []int64{TH}, first: "error:NotFound#1", rotatable: true, secondMeta: 180, wantScans: 2, wantRotates: 1, wantOrient: 90, wantPoints: []string{ptStr(pt(RH-1-9, 4)), ptStr(pt(RH-1-9, 30))}},
+		{name: "rotated scan fails", hints: []int64{TH}, first: "error:NotFound#1", rotatable: true, second: "error:NotFound#2", wantScans: 2, wantRotates: 1, wantErr: "error:NotFound#2"},
+		{name: "rotation fails", hints: []int64{TH}, first: "error:NotFound#1", rotatable: true, rotateErr: "error:Other#rot", wantScans: 1, wantRotates: 1, wantErr: "error:Other#rot"},
+	} {
+		key := "oned.OneDReader.Decode/" + sc.name
+		r.Analysed(key)
+		scans, rotates := 0, 0
+		var scanImages []string
+		var scanHints []*Val
+		var returned *Val
+		callerHints := hintsVal(sc.hints...)
+		h := &rpf{unroll: 64, assertHook: assertHook}
+		h.callHook = func(rr *rpf, call *ast.CallExpr, callee types.Object) (*Val, bool) {
+			fnc, ok := callee.(*types.Func)
+			if !ok {
+				return nil, false
+			}
+			switch {
+			case recvName(fnc) == "BinaryBitmap" && fnc.Name() == "IsRotateSupported":
+				return vbool(sc.rotatable), true
+			case recvName(fnc) == "BinaryBitmap" && (fnc.Name() == "GetHeight" || fnc.Name() == "GetWidth"):
+				if sel, ok := call.Fun.(*ast.SelectorExpr); ok {
+					if on := rr.expr(sel.X); on.K == VStruct && on.Fields["\x00img"] != nil && on.Fields["\x00img"].S == "rotated" {
+						if fnc.Name() == "GetHeight" {
+							return vint(RH), true
+						}
+						return vint(80), true
+					}
+				}
+				if fnc.Name() == "GetHeight" {
+					return vint(80), true
+				}
+				return vint(RH), true
+			}
+			if v, ok := resultHooks(rr, call, fnc); ok {
+				return v, true
+			}
+			return errCtorHook(rr, call, callee)
+		}
+		h.multiHook = func(call *ast.CallExpr, callee types.Object) ([]*Val, bool) {
+			fnc, ok := callee.(*types.Func)
+			if !ok {
+				return nil, false
+			}
+			rr := rpfCurrent
+			switch {
+			case fnc.Name() == "doDecode" && len(call.Args) == 2:
+				img, hv := rr.expr(call.Args[0]), rr.expr(call.Args[1])
+				scans++
+				id := "?"
+				if img.K == VStruct && img.Fields["\x00img"] != nil {
+					id = img.Fields["\x00img"].S
+				}
+				scanImages = append(scanImages, id)
+				scanHints = append(scanHints, hv)
+				e := sc.first
+				if scans > 1 {
+					e = sc.second
+				}
+				if e != "" {
+					return []*Val{{K: VNil}, vstr(e)}, true
+				}
+				meta := map[string]*Val{}
+				if scans > 1 && sc.secondMeta != 0 {
+					meta[fmt.Sprint(OR)] = vint(sc.secondMeta)
+				}
+				returned = newResult(fmt.Sprintf("result%d", scans), meta, pt(4, 9), pt(30, 9))
+				return []*Val{returned, {K: VNil}}, true
+			case recvName(fnc) == "BinaryBitmap" && fnc.Name() == "RotateCounterClockwise":
+				rotates++
+				if sc.rotateErr != "" {
+					return []*Val{{K: VNil}, vstr(sc.rotateErr)}, true
+				}
+				return []*Val{{K: VStruct, Ptr: true, Fields: map[string]*Val{"\x00img": vstr("rotated")}}, {K: VNil}}, true
+			}
+			return nil, false
+		}
+		h.env = map[types.Object]*Val{}
+		if ro := recvObj(pE, fdE); ro != nil {
+			h.env[ro] = &Val{K: VStruct, Ptr: true, Fields: map[string]*Val{"RowDecoder": {K: VStruct, Ptr: true, Fields: map[string]*Val{}}}}
+		}
+		res, err := c.rpfCall(fdE, pE, []*Val{{K: VStruct, Ptr: true, Fields: map[string]*Val{"\x00img": vstr("original")}}, callerHints}, h)
+		bad := ""
+		wantImages := []string{"original", "rotated"}[:sc.wantScans]
+		switch {
+		case err != nil:
+			bad = "?" + err.Error()
+		case len(res) != 2:
+			bad = "Decode does not return (result, error)"
+		case scans != sc.wantScans || rotates != sc.wantRotates || fmt.Sprint(scanImages) != fmt.Sprint(wantImages):
+			bad = fmt.Sprintf("%d scan(s) of %v and %d rotation(s), expected %d scan(s) of %v and %d rotation(s)", scans, scanImages, rotates, sc.wantScans, wantImages, sc.wantRotates)
+		case sc.wantErr != "" && (res[0].K != VNil || res[1].K != VStr || res[1].S != sc.wantErr):
+			bad = fmt.Sprintf("expected (nil, %s), got (%s, %s)", sc.wantErr, res[0], res[1])
+		case sc.wantErr == "" && (res[0] != returned || res[1].K != VNil):
+			bad = fmt.Sprintf("expected the scan's result and no error, got (%s, %s)", res[0], res[1])
+		}
+		for i := 0; i < len(scanHints) && bad == ""; i++ {
+			if keysOf(scanHints[i]) != keysOf(callerHints) || scanHints[i].K != callerHints.K {
+				bad = fmt.Sprintf("scan %d is given the hints {%s}, the caller's are {%s}", i+1, keysOf(scanHints[i]), keysOf(callerHints))
+			}
+		}
+		if bad == "" && sc.wantErr == "" {
+			meta := returned.Fields["\x00meta"].Fields
+			pts := returned.Fields["\x00points"].L
+			o := meta[fmt.Sprint(OR)]
+			switch {
+			case sc.wantOrient == 0 && (len(meta) != 0 || ptStr(pts[0]) != ptStr(pt(4, 9))):
+				bad = "the result of the first scan must be returned untouched"
+			case sc.wantOrient != 0 && (o == nil || !o.isInt() || o.I != sc.wantOrient):
+				bad = fmt.Sprintf("a result found in the rotated image must carry ORIENTATION %d ((270 + the scan's own) mod 360), got %s", sc.wantOrient, o)
+			case sc.wantOrient != 0 && (len(pts) != 2 || ptStr(pts[0]) != sc.wantPoints[0] || ptStr(pts[1]) != sc.wantPoints[1]):
+				bad = fmt.Sprintf("the points of a result found in the rotated image (height %d) must be mapped (x, y) -> (height-1-y, x): got %s, %s from (4, 9), (30, 9)", RH, ptStr(pts[0]), ptStr(pts[1]))
+			}
+		}
+		reportFold(r, c, "S-ORIENTW", key, fdE.Pos(), bad)
+	}
+	r.DecidedBy("M-ORIENT", "S-ORIENTW", "doDecode and Decode folded whole over scripted images, rows and results: which rows, which attempts, the marks and the points")
+	r.DecidedByKeys("M-HINTFWD", "S-ORIENTW", "the hints every attempt and every scan is given are recorded and compared", "(*oned.OneDReader).doDecode#0", "(*oned.OneDReader).doDecode#1", "(*oned.OneDReader).doDecode#2", "(*oned.OneDReader).doDecode#3", "(*oned.OneDReader).Decode#0", "(*oned.OneDReader).Decode#1", "(*oned.OneDReader).Decode#2")
 }
